@@ -10,7 +10,7 @@ H = {
              rule='exhaustive: 1..4 filters per SUBSCRIBE, each from {a, b, a/+, x#y (rejected by the scripted store)}, requested QoS 0..2 each, store maximum QoS 0..2; real processSubscribe, real SUBSCRIBE decode, real outgoing ring, SUBACK decoded and compared (id, one code per filter in request order, 0x80 for the rejected filter, min(requested, max) otherwise; store asked once per filter in order); non-trivial = more than one filter or a rejected filter',
              what='processSubscribe (under a trusted contract in the deductive check)'),
  'C06': dict(pkg='topics', file='/verif/bounded/c06_test.go', test='TestBoundedC06',
-             rule='exhaustive: filters of 1..3 levels over {a,b,+,#} (# only last; 52 filters), topics of 1..3 levels over {a,b} (14), two subscribers with every pair of filters at three QoS shapes, publish QoS 0..2, before and after unsubscribing the first; three subscribers on one filter with removal of each; re-subscription with another QoS; retained messages for every pair of topics against every filter with replacement and clearing; filters passed in a buffer overwritten after the call; oracle = MQTT 3.1.1 section 4.7 matching with min(publish QoS, granted QoS); non-trivial = at least one expected receiver / retained message', what='subscription and retained tries of MemTopics (sinsert, sremove, smatch, matchQos, rinsert, rremove, rmatch, allRetained)'),
+             rule='exhaustive: filters of 1..3 levels over {a,b,+,#} (# only last; 52 filters), topics of 1..3 levels over {a,b} (14), two subscribers with every pair of filters at three QoS shapes, publish QoS 0..2, before and after unsubscribing the first; three subscribers on one filter with removal of each; re-subscription with another QoS; retained messages for every pair of topics against every filter with replacement and clearing; every filter followed by invalid filters built on its prefixes (refused, matching unchanged); filters passed in a buffer overwritten after the call; oracle = MQTT 3.1.1 section 4.7 matching with min(publish QoS, granted QoS); non-trivial = at least one expected receiver / retained message', what='subscription and retained tries of MemTopics (sinsert, sremove, smatch, matchQos, rinsert, rremove, rmatch, allRetained)'),
 }
 H['C08'] = dict(H['C06'], what='retained trie of MemTopics (rinsert, rremove, rmatch, allRetained): lookups and the effect of insert/clear on other topics')
 pid, tier = sys.argv[1], (sys.argv[2] if len(sys.argv) > 2 else 'quick')
